@@ -71,6 +71,26 @@ pub fn solver_cases(lm: &LinearModel, tags: &[String], stream: &str, variants: &
         c.show = format!("{} on: {}", kind.name(), show_model(lm));
         out.push(c);
     }
+    // the iteration-limit arm of the tableau simplex (`SimplexError::IterationLimitReached -> LimitReached`): the same
+    // model with a limit of one pivot and with a non-positive limit (the loop body never runs)
+    if cont && !hung.get() {
+        for limit in [1i64, -1] {
+            let o2 = Opts { simplex_limit: limit, ..Opts::default() };
+            let o = child::solve(SolverKind::Simplex, lm, &o2, TIMEOUT);
+            if matches!(o, Outcome::Hang) { continue; }
+            let mut c = Case::default();
+            c.imp = gen_lp::result(&o);
+            c.req = format!("simplex-wrap {} {} {}", sx::num(crate::gen_std::measured_tolerance()), limit, lms);
+            c.oracle = format!("check-solution {} {} {}", lms, SolverKind::Simplex.name(), c.imp);
+            c.tags = tags.to_vec();
+            c.tags.push(format!("stream-{}", stream));
+            c.tags.push(format!("simplex-limit-{}", limit));
+            c.tags.push(match &o { Outcome::Solution(_) => "answer-solution".to_string(), Outcome::Err { variant, .. } => format!("answer-err-{}", variant), Outcome::Panic(_) => "answer-panic".into(), Outcome::Hang => "answer-hang".into() });
+            c.nontrivial = matches!(o, Outcome::Solution(_));
+            c.show = format!("simplex(limit {}) on: {}", limit, show_model(lm));
+            out.push(c);
+        }
+    }
 }
 
 pub fn show_model(lm: &LinearModel) -> String {
